@@ -15,6 +15,7 @@ from habutax.forms import available_forms
 
 ADV_TEXT = "Ann (Lee) O'Neil \\ Jr"
 ADV_TEXT2 = "#4B ; rear = 5 : [x]"
+ADV_TEXT3 = "50% (net)"
 
 
 # --------------------------------------------------------------------------
@@ -257,7 +258,7 @@ def alphabet(inp, pair=False):
     if isinstance(inp, (hi.SSNInput, hi.RegexInput)):
         return []
     if isinstance(inp, hi.StringInput):
-        return ['x', ADV_TEXT, ADV_TEXT2] if not pair else []
+        return ['x', ADV_TEXT, ADV_TEXT2, ADV_TEXT3] if not pair else []
     return []
 
 
